@@ -487,6 +487,14 @@ func cmdCheck(args []string) int {
 				fnAll[q] = true
 			}
 		}
+		// a function the engine could not process (engine limit: no obligations at all) is not
+		// "complete": nothing about it was discharged
+		for _, r := range reps {
+			if r.Err != "" {
+				fnBad[r.Func] = true
+				safetyBad[r.Func] = true
+			}
+		}
 		for fn := range fnAll {
 			if !fnBad[fn] {
 				m := fn + ".all.complete"
